@@ -52,7 +52,7 @@ NodeInit(e) ==
      lk |-> <<>>, pendSearch |-> <<>>, sidAid |-> <<>>, closed |-> <<>>, yields |-> <<>>, started |-> <<>>,
      rounds |-> <<>>, succ |-> <<>>,
      answered |-> FALSE, waits |-> <<>>, qsent |-> 0, started_at |-> now, bootstate |-> "AwaitStart",
-     samples |-> <<>>]
+     samples |-> <<>>, lastAns |-> <<>>, lastNamed |-> <<>>, qsince |-> <<>>, admitted |-> {}]
 
 Init == l = 1 /\ S = <<>> /\ G = [universe |-> <<>>, plan |-> <<>>, coop |-> FALSE, twins |-> <<>>, responsive |-> <<>>]
 
@@ -166,6 +166,69 @@ BagDec(b, x) == [b EXCEPT ![x] = @ - 1]
 BagEmpty(b) == \A x \in DOMAIN b : b[x] = 0
 
 
+\* ------------------------------------------------------------------ C18: refresh cadence
+CountIn(seq, lo, hi) == Cardinality({i \in 1..Len(seq) : seq[i] > lo /\ seq[i] <= hi})
+RefreshRoundStep(e) ==
+    LET nd == Nd(e)
+        rounds == Append(nd.rounds, now)
+        ok(W) == CountIn(rounds, now - W, now) <= (W \div 6000) + 1 + CountIn(nd.succ, now - W - 1, now) IN
+    /\ Chk("C18", "at-most-one-round-per-6s-plus-one-per-bootstrap-completion (30 s window)", l, ok(30000))
+    /\ Chk("C18", "at-most-one-round-per-6s-plus-one-per-bootstrap-completion (2 min window)", l, ok(120000))
+    /\ Chk("C18", "at-most-one-round-per-6s-plus-one-per-bootstrap-completion (20 min window)", l, ok(1200000))
+    /\ Chk("C18", "a-round-is-caused-by-the-refresh-timer-or-a-bootstrap-completion", l,
+           nd.step.open /\ (nd.step.kind = "bootstrap" \/ (nd.step.kind = "timer" /\ nd.step.what = "TableRefresh")))
+    /\ Upd(e, [nd EXCEPT !.rounds = rounds]) /\ UNCHANGED G
+
+\* ------------------------------------------------------------------ C15: bootstrap and its waiters
+BootWaitStep(e) ==
+    Upd(e, [Nd(e) EXCEPT !.waits = FSet(@, e.wid, [at |-> now, ret |-> -1])]) /\ UNCHANGED G
+BootRetStep(e) ==
+    LET nd == Nd(e) IN
+    /\ Chk("C15", "bootstrapped-resolves-true-while-the-node-lives", l, e.ok)
+    /\ Chk("C15", "not-before-a-contact-has-answered", l, nd.contacts = {} \/ nd.answered)
+    /\ Chk("C15", "no-contacts-bootstrapped-immediately", l, nd.contacts = {} => now = nd.waits[e.wid].at)
+    /\ Upd(e, [nd EXCEPT !.waits[e.wid].ret = now]) /\ UNCHANGED G
+\* at the end of a run: every waiter was told, within 11 minutes of a contact becoming responsive
+WaitersOK(n) ==
+    LET nd == S[n]
+        since == FGet(G.responsive, n, -1) IN
+    \* the 11-minute promise is made for configurations whose contacts are plain nodes (no routers) and at least one of which
+    \* answers from `since` on
+    (since >= 0 /\ nd.plain) =>
+        \A w \in DOMAIN nd.waits :
+            /\ nd.waits[w].ret >= 0
+            /\ nd.waits[w].ret <= (IF nd.waits[w].at > since THEN nd.waits[w].at ELSE since) + 660000
+
+\* ------------------------------------------------------------------ C11: contacts over hours
+PlanFor(n) == FGet(G.plan, n, <<>>)
+PeerSendStep(e) ==
+    \* a scripted peer answers node e.dst: remember when (C11: "last answer")
+    IF e.m.y = "r" /\ e.dst \in DOMAIN S
+    THEN S' = [S EXCEPT ![e.dst].lastAns = FSet(@, e.src, now)] /\ UNCHANGED G
+    ELSE UNCHANGED <<S, G>>
+Named(nd, m) == IF nd.fam = 4 THEN m.r.nodes ELSE m.r.nodes6
+ContactsSampleStep(e) ==
+    LET nd == Nd(e)
+        good == {e.good[i] : i \in 1..Len(e.good)}
+        quest == {e.quest[i] : i \in 1..Len(e.quest)}
+        listed == good \cup quest
+        plan == PlanFor(e.node)
+        qs2 == [a \in quest |-> FGet(nd.qsince, a, now)]
+        adm2 == nd.admitted \cup listed IN
+    /\ Chk("C15", "node-stays-alive", l, e.alive) /\ Chk("C14", "api-call-completes", l, e.alive)
+    /\ \A i \in 1..Len(plan) :
+          LET p == plan[i] IN
+          IF p.mode = "Answer"
+          THEN /\ Chk("C11", "a-contact-that-always-answers-is-never-lost", l, p.addr \in nd.admitted => p.addr \in listed)
+               /\ Chk("C11", "a-responsive-contact-is-good-again-within-30s-of-turning-questionable", l,
+                      p.addr \in quest => now - qs2[p.addr] <= 30000 + 5000)
+          ELSE LET la == FGet(nd.lastAns, p.addr, -1)
+                   ln == FGet(nd.lastNamed, p.addr, -1)
+                   deadline == IF la + 1200000 > ln + 300000 THEN la + 1200000 ELSE ln + 300000 IN
+               Chk("C11", "a-silent-contact-is-gone-20-min-after-its-last-answer-or-5-min-after-last-being-named", l,
+                   (la >= 0 /\ now > deadline + 5000) => p.addr \notin listed)
+    /\ Upd(e, [nd EXCEPT !.qsince = qs2, !.admitted = adm2]) /\ UNCHANGED G
+
 \* ------------------------------------------------------------------ closest nodes of the declared universe (C02)
 RECURSIVE PickClosest(_, _, _, _)
 PickClosest(cands, target, k, acc) ==
@@ -247,6 +310,7 @@ ClosedStep(e) ==
     /\ UNCHANGED G
 
 EndStep(e) ==
+    /\ \A n \in DOMAIN S : Chk("C15", "every-waiter-is-told-within-11-minutes-of-a-contact-becoming-responsive", l, WaitersOK(n))
     /\ \A n \in DOMAIN S :
           /\ Chk("C04", "every-search-ends", l, S[n].pendSearch = <<>> /\ DOMAIN S[n].sidAid \subseteq DOMAIN S[n].closed)
           /\ Chk("C16", "every-requested-search-was-started", l, S[n].pendSearch = <<>>)
@@ -303,6 +367,11 @@ RecvStep(e) ==
         isContactAnswer == m.y = "r" /\ e.src \in nd.contacts IN
     /\ Upd(e, [nd EXCEPT !.pend = m, !.psrc = e.src,
                          !.heard = IF hk = <<>> THEN @ ELSE FSet(@, hk, now),
+                         !.lastNamed = IF m.y = "r" /\ Has(m, "r")
+                                       THEN LET nm == Named(nd, m)
+                                                as == {nm[i].addr : i \in 1..Len(nm)} \ {e.src} IN
+                                            [a \in DOMAIN @ \cup as |-> IF a \in as THEN now ELSE @[a]]
+                                       ELSE @,
                          !.answered = @ \/ isContactAnswer])
     /\ UNCHANGED G
 
@@ -379,14 +448,14 @@ HEndStep(e) ==
     /\ (isIncoming /\ NotAQuery(m)) => Chk("C05", "non-queries-are-never-answered", l, Len(replies) = 0)
     /\ (isIncoming /\ m.y = "q") => Chk("C12", "a-query-never-admits-its-sender", l, RLiveHandles(post, now) \subseteq RLiveHandles(pre, now))
     /\ (isIncoming /\ Unsolicited(nd0, m)) => Chk("C12", "unsolicited-response-changes-no-contacts", l, RLiveHandles(post, now) = RLiveHandles(pre, now))
-    /\ TableChecks(nd0, post, l)
+    /\ (Len(e.ch[2]) > 0 => TableChecks(nd0, post, l))
     /\ Chk("C14", "node-keeps-running-while-handles-exist", l, e.running \/ ~st.open)
     /\ Upd(e, [nd2 EXCEPT !.t = post, !.step = [open |-> FALSE]])
     /\ UNCHANGED G
 
 WorkerTable(e) ==
     LET nd == Nd(e)  post == ApplyDiff(nd.t, e.ch) IN
-    /\ TableChecks(nd, post, l)
+    /\ (Len(e.ch[2]) > 0 => TableChecks(nd, post, l))
     /\ Upd(e, [nd EXCEPT !.t = post, !.bootstate = IF e.ev = "BootState" THEN e.to ELSE @])
     /\ UNCHANGED G
 
@@ -412,6 +481,13 @@ Step(e) ==
       [] e.ev = "Closed" -> ClosedStep(e)
       [] e.ev = "End" -> EndStep(e)
       [] e.ev = "BootSuccess" -> Upd(e, [Nd(e) EXCEPT !.succ = Append(@, now)]) /\ UNCHANGED G
+      [] e.ev = "RefreshRound" -> RefreshRoundStep(e)
+      [] e.ev = "ApiBootWait" -> BootWaitStep(e)
+      [] e.ev = "ApiBootRet" -> BootRetStep(e)
+      [] e.ev = "Responsive" -> G' = [G EXCEPT !.responsive = FSet(@, e.node, e.since)] /\ UNCHANGED S
+      [] e.ev = "Plan" -> G' = [G EXCEPT !.plan = FSet(@, e.node, e.peers)] /\ UNCHANGED S
+      [] e.ev = "PeerSend" -> PeerSendStep(e)
+      [] e.ev = "ApiContacts" /\ e.alive -> ContactsSampleStep(e)
       [] e.ev \in {"ApiState", "ApiContacts", "ApiLocalAddr"} ->
             /\ Chk("C14", "api-call-completes", l, e.alive)
             /\ Chk("C15", "node-stays-alive", l, e.alive)
